@@ -22,7 +22,7 @@ func C14(r *core.Run) {
 		"(R14.3) whenever a listing is marked truncated the continuation markers are set on the same path, from the entry where it stopped; " +
 		"(R14.4) the upload map and the per-key index are updated in step (add/remove write both, nobody else writes, the index never keeps an empty slice); " +
 		"(R14.5) listed uploads come from the index entry of the iterated key, filtered by the prefix match, counted against the limit; " +
-		"(L2) every access to uploader state holds uploader.mu; (R14.6) max-uploads / max-parts / part-number-marker are clamped from the query and passed on. (R14.8) a remaining key grouped under an unreported common prefix keeps an upload listing truncated. (R14.9) bucket entries of the uploader are not removed while a missing entry lists as an error. (R14.10) ListParts appends only below the max-parts bound, counts every listed part, and resumes from the part listed last."
+		"(L2) every access to uploader state holds uploader.mu; (R14.6) max-uploads / max-parts / part-number-marker are clamped from the query and passed on. (R14.8) a remaining key grouped under an unreported common prefix keeps an upload listing truncated. (R14.9) bucket entries of the uploader are not removed while a missing entry lists as an error. (R14.10) ListParts appends only below the max-parts bound, counts every listed part, and resumes from the part listed last. (paging elements) the continuation markers are serialised under the element names the protocol defines."
 	r.NotDecided = "exactly-once across pages for uploads, prefix grouping semantics, order by initiation time (append order is relied upon)"
 	ctx := oblig.NewCtx(r.P)
 	installNonNilHook(r, ctx)
@@ -46,6 +46,7 @@ func C14(r *core.Run) {
 	rule148(r)
 	rule149(r)
 	rule1410(r)
+	rulePagingElements(r, "R14.11", "ListMultipartUploadsResult", "ListMultipartUploadPartsResult")
 	// L2 restricted to uploader state
 	a := newLockset(r)
 	r.Rule("L2", "every access to uploader bookkeeping (buckets, uploadID, uploads, objectIndex, parts) holds uploader.mu")
@@ -507,6 +508,10 @@ func rule146(r *core.Run) {
 			qs := r.P.SliceOf(cc.Call.Args[0], core.SliceOpts{Depth: -1})
 			mn, ok1 := core.ConstInt(cc.Call.Args[2])
 			mx, ok2 := core.ConstInt(cc.Call.Args[3])
+			// a marker is a part number: its clamp must not cut below the largest part number (10000)
+			if x.maxConst < 0 && ok2 && mx < 10000 {
+				continue
+			}
 			if qs.Has("const:"+x.query) && ok1 && mn >= 0 && ok2 && (x.maxConst < 0 || mx == x.maxConst) {
 				okc = true
 			}
